@@ -116,3 +116,13 @@ func init() {
 	prop("C06", "C06-R3")
 	prop("C11", "C06-R3")
 }
+
+func init() {
+	prop("C16", "C16-R5")
+	prop("C05", "C16-R5")
+	prop("C04", "C16-R5")
+	prop("C07", "C07-R5")
+	prop("C03", "C07-R5")
+	prop("C12", "C12-R5")
+	prop("C13", "C13-R6")
+}
